@@ -47,7 +47,7 @@ TaskIds == 1..NT
 ResIds == 1..NR
 
 P(pr) == [prog |-> pr, nt |-> NT, nr |-> NR, nv |-> NV, na |-> NA, fam |-> Family, id |-> "model",
-          base |-> [t \in TaskIds |-> t], rinst |-> [r \in ResIds |-> TRUE],
+          base |-> [t \in TaskIds |-> t], rinst |-> [r \in ResIds |-> TRUE], rown |-> [r \in ResIds |-> "INTEGRITY"],
           exact |-> RChks \subseteq {"eq"} /\ OChks \subseteq {"eq"} /\ WChks \subseteq {"eq"}]
 
 (***************************************************************************)
